@@ -15,7 +15,7 @@ IMPORTS = "Require Import V.model.SvcArgs."
 THEOREMS = ["install_upgrade_equiv", "upgrade_keeps_definition", "upgrade_port_is_the_only_difference",
             "every_installed_flag_is_known", "interp_install_is_intended", "written_args_conflict_free",
             "builders_match_source", "network_id_reaches_protocol_strings", "lifecycle_keeps_settings",
-            "evm_subcommand_wins"]
+            "evm_subcommand_wins", "upgrade_installs_the_regenerated_definition"]
 RULE = ("option combinations over 27 parameters (peers: first/local/addrs/urls/testnet/ignore-cache/cache dir; "
         "network id, home-network, log format, upnp, ip, node/metrics/rpc ports, metrics server, owner (incl. upper "
         "case), log-file limits, rewards address, EVM network incl. custom, auto-restart, environment, user, user "
@@ -58,6 +58,7 @@ PARAMS = [
              [["EVM_NETWORK", "arbitrum-one"]], ENV_CUSTOM]),
     ("user", [None, "root"]), ("user_mode", [False, True]), ("rpc_ip", [None, "1.2.3.4"]), ("rpc_port", [8081, None]),
     ("observed_port", [None, 12001]), ("upgrade_env", [None, [["X", "Y"]], [["EVM_NETWORK", "arbitrum-sepolia"]], ENV_CUSTOM]),
+    ("start_service", [True, False]), ("force", [False, True]),
     ("lifecycle", [[], ["start"], ["start", "stop"], ["refresh"], ["start", "refresh", "stop", "refresh", "start"]]),
 ]
 PEER_KEYS = ("first", "local", "addrs", "urls", "testnet", "ignore_cache", "cache_dir")
@@ -207,8 +208,9 @@ def upgrade_env(c):
 def model_term(c, o):
     if "panic" in o or "add_error" in o or "upgrade_error" in o or "lifecycle_error" in o:
         return "false"
-    t = "agree_ctxs_life %s %s %s (mkU false %s) %s %s" % (
+    t = "agree_ctxs_upgrade %s %s %s (mkU false %s) %s %s %s %s" % (
         c_cfg(c, o), c_env(c["env"]), c_life(c), c_env(upgrade_env(c)),
+        cbool(c.get("force", False)), cbool(c.get("start_service", True)),
         c_ctx(o["install"]), c_ctx(o["upgrade"]))
     # what the node reports it runs with == the model's protocol strings for this configuration
     for which in ("install", "upgrade"):
